@@ -37,8 +37,39 @@ CLAIMS = {
         "the port is the decimal value written (< 65536); a 227 reply yields an endpoint only for six decimal fields <= 255 (sound + complete), "
         "port = p1*256+p2 never wrapped; PORT/EPRT arguments decode (server-side reference decoder) to exactly the given address and port for "
         "all addresses/ports; PORT refuses non-IPv4. Correspondence: all 65536 ports both directions, all (p1,p2) in [0,300]^2, all delimiter "
-        "bytes, single-character edits, random surrounding text (pure part; the connect-target / listen-endpoint part is the client-level stage).",
+        "bytes, single-character edits, random surrounding text. Client level (Props/C06c.lean, theorems for every set-up reply and every "
+        "state): a passive transfer connects exactly once, to the control peer's address and the port of the 229 reply / to the endpoint "
+        "of the 227 reply; a malformed passive reply is an error before any connect; EPRT / PORT advertise the address of the control "
+        "connection and the port of the listening socket just opened; at most one accept. Correspondence: real client against the "
+        "scripted peer (connect targets via libc interposition, several loopback addresses in the e2e stage).",
    note="That the kernel connects where connect() is told, and address <-> text conversion (inet_ntop/pton), are trusted.", ref="DESIGN.md section 7 C06"),
+ "C02": dict(
+   text="Theorems for every API call that returns, in a session that is in step, against every well-formed server whose reply groups "
+        "have the RFC 959 shapes for the commands the call sent (one final reply; preliminary + completion for transfer commands; two for "
+        "ABOR of a running transfer) and that answers every command of the call: the replies returned are exactly the replies generated "
+        "during the call, in order, nothing is left unread, and the session is in step for the next call (lockstep, stays_in_step; both "
+        "are shown false without the full-script hypothesis - a modelling artefact of the scripted server). The two recorded findings are "
+        "theorems about the model as well (fails_on_abor_after_completion, fails_on_rein_120) and KNOWN-FINDING lines of the check. "
+        "Correspondence + monitor: random and directed histories of all calls x four methods x cancellation points, in-memory control "
+        "channel with scripted cuts, real loopback data; TLS and plain sessions over real sockets (e2e stage).",
+   note="Two genuine defects are recorded rather than repaired (known_findings.json K1, K2): ABOR answered by a server that had already "
+        "completed the transfer, and REIN answered 120 + 220.", ref="DESIGN.md section 7 C02"),
+ "C07": dict(
+   text="Theorems for every transfer operation (download, upload, append, unique upload, listing) in every mode, in a session that is in "
+        "step: a refusal (any 4xx/5xx but 421) of the set-up command or of the transfer command makes the call return - not throw - with "
+        "exactly the replies received, a non-positive aggregate, no byte moved to the sink / read from the source, every data descriptor "
+        "closed (no_descriptor from C17.balanced), the session connected and in step. Correspondence + monitor: 13 negative codes x "
+        "{set-up, main} x {download, upload, listing} x four methods each followed by a normal operation; random histories; refused "
+        "transfers inside TLS 1.2 / 1.3 and plain sessions over real sockets.",
+   note="Failures of close() on the refused passive data socket are an oracle (hypothesis closeFails = false in refused_at_main).", ref="DESIGN.md section 7 C07"),
+ "C13": dict(
+   text="Theorems for every state: connect starts from a clean reader (nothing of an old session is returned; the first reply is the new "
+        "greeting) and reports connected exactly when it returned; non-graceful disconnect always ends disconnected with the socket "
+        "closed and sends nothing; graceful disconnect sends QUIT, returns its reply and closes; a 421 reply disconnects; no call writes "
+        "to the server while disconnected. Correspondence + monitor: histories of connect / operations / disconnect / reconnect with the "
+        "old session ended normally, by 421, by truncated or garbage replies, with leftovers; TLS histories (failed handshake with "
+        "leftover bytes, 421 inside TLS, dropped session) over real sockets.",
+   note="TLS layer removal on reconnect is covered by the C11 layer's model (ClientTls) and the e2e stage.", ref="DESIGN.md section 7 C13"),
  "C19": dict(
    text="Theorems: the comparison chain recognises exactly the 27 documented pairs (decide); a token is accepted as command c iff it equals "
         "c's name up to ASCII case (all tokens); totality by type; round trip for every verb variant and every list of arbitrary byte strings "
